@@ -27,6 +27,13 @@ type Run struct {
 	Start    time.Time
 	Deadline time.Time
 
+	// replay mode: only the recorded space is visited, with the recorded choice sequence
+	ReplaySpace   string
+	ReplayChoices []int
+	ReplaySig     string
+	replayHit     bool
+	replayFound   bool
+
 	spaces []*Stats
 	extra  map[string]any
 	extraV []*Violation
@@ -60,6 +67,18 @@ func NewRun(property, tier string) *Run {
 
 // Explore runs one space under this run's deadline and records its stats.
 func (r *Run) Explore(opt Options, body func(*Ctx)) *Stats {
+	if r.Replaying() {
+		if opt.Space == r.ReplaySpace && !r.replayHit {
+			r.replayHit = true
+			for sig, v := range ReplayOne(body, r.ReplayChoices) {
+				fmt.Printf("replay: %s\n  witness: %q\n  detail:  %s\n", sig, v.Witness, firstLines(v.Detail, 12))
+				if sig == r.ReplaySig {
+					r.replayFound = true
+				}
+			}
+		}
+		return &Stats{Space: opt.Space, Exhaustive: true, Violations: map[string]*Violation{}, Counters: map[string]int64{}, outcomes: map[uint64]struct{}{}, nontrivial: map[uint64]struct{}{}}
+	}
 	opt.Deadline = r.Deadline
 	st := Explore(opt, body)
 	r.spaces = append(r.spaces, st)
@@ -257,4 +276,21 @@ func (r *Run) outBase() string {
 		return outDir
 	}
 	return r.VerifDir
+}
+
+// Replaying reports whether this run only replays one recorded case.
+func (r *Run) Replaying() bool { return r.ReplaySpace != "" }
+
+// FinishReplay prints the verdict of a replay and returns the exit code.
+func (r *Run) FinishReplay(path string) int {
+	if !r.replayHit {
+		fmt.Printf("replay: space %q not found in this check\n", r.ReplaySpace)
+		return 2
+	}
+	if r.replayFound {
+		fmt.Printf("VIOLATION property=%s replay=%s\n", r.Property, path)
+		return 1
+	}
+	fmt.Printf("replay: signature %q not reproduced (the case no longer violates the property)\n", r.ReplaySig)
+	return 0
 }
